@@ -152,7 +152,7 @@ def mk_dimarg(spec):
         return list(spec[1])
     vals = [unlit(x) for x in spec[1]]
     if spec[0] == 'arr':
-        return np.array(vals)
+        return np.array(vals, dtype=spec[2]) if len(spec) > 2 else np.array(vals)
     if spec[0] == 'tuple':
         return tuple(vals)
     return vals
@@ -165,7 +165,7 @@ def canon_dimspec(spec):
     if spec[0] == 'num':
         return ['num', spec[1]]
     if spec[0] == 'arr':
-        a = np.array([unlit(x) for x in spec[1]])
+        a = np.array([unlit(x) for x in spec[1]], dtype=spec[2]) if len(spec) > 2 else np.array([unlit(x) for x in spec[1]])
         return ['list', [lit(x) for x in a]]
     if spec[0] == 'strs':
         return ['strs', spec[1]]
@@ -208,9 +208,17 @@ def mk_data(shape, dtype, layout, seed):
 
 def rand_dimspec(rng, n, allow_bad=False):
     k = rng.choice(['none', 'none', 'int', 'float', 'pair_i', 'pair_f', 'pair_mixed', 'full_lin_i', 'full_lin_f', 'full_nonlin',
-                    'near_lin', 'decr', 'arr_pair', 'arr_full', 'const', 'tuple', 'strs', 'full_nonlin_i', 'arr_nonlin_i'])
+                    'near_lin', 'decr', 'arr_pair', 'arr_full', 'const', 'tuple', 'strs', 'full_nonlin_i', 'arr_nonlin_i', 'arr_unsigned'])
     if k == 'none':
         return None
+    if k == 'arr_unsigned':      # a full-length vector of an unsigned integer dtype: decreasing / increasing, linear or not (differences wrap)
+        dt = rng.choice(['uint8', 'uint16', 'uint32', 'uint64'])
+        step = rng.choice([1, 2, 3, 10])
+        v = [step * (n - 1 - i) + rng.choice([0, 5]) * 0 + 1 for i in range(n)] if rng.random() < 0.6 else [1 + step * i for i in range(n)]
+        if rng.random() < 0.25 and n >= 3:
+            v[-1] = v[-1] + 1
+        v = [min(x, 250) for x in v]
+        return ['arr', [lit(int(x)) for x in v], dt]
     if k in ('full_nonlin_i', 'arr_nonlin_i'):      # non-linear integer vectors: a list of Python ints / an int64 array
         v = sorted(rng.sample(range(-20, 60), n)) if n <= 80 else list(range(n))
         if n >= 3 and v[1] - v[0] == v[2] - v[1]:
@@ -298,6 +306,9 @@ def gen_scenario(rng, focus):
         else:
             ops.append({'op': 'set_name', 'n': n, 'name': rng.choice(NAMES)})
     if stack:
+        if ops and rng.random() < 0.6:
+            # index the labels before the setters as well: what an earlier indexing returned must not influence a later one
+            ops.insert(rng.randrange(len(ops)), {'op': 'slices'})
         ops.append({'op': 'slices'})
     ops.append({'op': 'save'})
     return {'datashape': datashape, 'dims': dims, 'units': units, 'names': names, 'labels': labels,
@@ -454,6 +465,8 @@ def emit(cases, results, shard=300, with_save=True):
             c, r = cases[i], results[i]
             if isinstance(r, list):
                 continue
+            if any(d is not None and d[0] == 'arr' and len(d) > 2 for d in list(c['dims'] or []) + [op.get('dim') for op in c['ops'] if op['op'] == 'set_dim']):
+                continue      # unsigned-integer dim vectors: numpy's wrapping differences are outside the model (oracle only)
             dims = coqlist([coqdimarg(canon_dimspec(d), I) for d in (c['dims'] or [])])
             units = coqlist([I.s(x) for x in (c['units'] or [])])
             names = coqlist([I.s(x) for x in (c['names'] or [])])
